@@ -48,6 +48,10 @@ def cases(rng, tier):
                             f"toy.asm {toyasmgen.hx('.data' + chr(10) + 'x: .word ' + ','.join(['1'] * 4000) + chr(10) + '.text' + chr(10) + chr(10).join(['INC'] * 200))}"],
                None, {"text": "INC*4097", "kind": "too-big"})
     yield Case("rv-text", [f"asm {rvasmgen.hx('.data' + chr(10) + 'z: .zero 1073741823' + chr(10) + 'w: .word 1, 2' + chr(10) + '.text' + chr(10) + 'nop')}"], None, {"text": "zero-wrap", "kind": "too-big"})
+    # instructions outside the supported set that a user can still assemble and RUN: whatever fails must fail well-typed
+    for text in ("nop\nebreak\nnop", "fence x1, x2\nnop", "csrrw x1, 0x300, x2", "nop\ncsrrwi x1, 0x300, 5\nnop", "csrrs x0, 0xC00, x0",
+                 "addi x1, x0, 1\nebreak", "li a7, 93\nfence x0, x0\necall", "csrrc x5, 0x0, x6\nebreak"):
+        yield Case("rv-run-unsupported", [f"asm {rvasmgen.hx(text)}"], None, {"text": text, "kind": "run-unsupported"})
     # run-time faults in every pipeline situation (stalled decode, ecall drain, squashed), independent of the seed
     for prog, regs in rvgen.fault_schedule_programs():
         for mode in ("five", "single"):
@@ -78,7 +82,36 @@ def measure(c, stats):
             stats.bump("ILL-TYPED")
 
 
+def _unsupported_oracle(c):
+    """run the text on the real simulation in both modes: an exception leaving run() must be the instruction-execution
+    error carrying the address of an instruction of the program and its printed form"""
+    from architecture_simulator.simulation.riscv_simulation import RiscvSimulation
+    from architecture_simulator.simulation.runtime_errors import InstructionExecutionException
+    text = c.meta["text"]
+    for mode in ("single_stage_pipeline", "five_stage_pipeline"):
+        sim = RiscvSimulation(mode=mode)
+        try:
+            sim.load_program(text)
+        except Exception:
+            return []
+        listing = {int(a): t for (a, _h), t, _s in sim.get_instruction_memory_entries()}
+        try:
+            k = 0
+            while not sim.is_done() and k < 300:
+                sim.step(); k += 1
+        except InstructionExecutionException as e:
+            if not isinstance(e.address, int) or e.address not in listing:
+                return [Failure("oracle", PROP, f"run-time error names address {e.address!r}, which holds no instruction -- {text!r} ({mode})", "run:bad-address")]
+            if e.instruction_repr != listing[e.address]:
+                return [Failure("oracle", PROP, f"run-time error at {e.address} prints {e.instruction_repr!r}, the listing shows {listing[e.address]!r} -- {text!r} ({mode})", "run:wrong-instruction")]
+        except Exception as e:
+            return [Failure("oracle", PROP, f"run-time failure escaped as {type(e).__name__} -- {text!r} ({mode})", "run:ill-typed")]
+    return []
+
+
 def oracle(c):
+    if c.meta.get("kind") == "run-unsupported":
+        return _unsupported_oracle(c)
     fails = []
     for l, o in zip(c.lines, c.impl_out):
         if l.startswith("asm ") or l.startswith("toy.asm ") or l.startswith("sim.load "):
